@@ -347,9 +347,16 @@ pub fn exec_job(job: &Job, faults: &[Fault], env: &ExecEnv, server: Option<SimFi
     let _ = cap.take();
     let r = catch(|| driver::drive_from_commandline(&job.argv, &mut fs));
     let (stdout, stderr) = cap.take();
+    // (only Ok/Err is looked at, so that a change of the error payload type
+    // of the driver does not break the harness build)
     let outcome = match r {
-        Ok(Ok(())) => Outcome::Ok,
-        Ok(Err(())) => Outcome::Err,
+        Ok(res) => {
+            if res.is_ok() {
+                Outcome::Ok
+            } else {
+                Outcome::Err
+            }
+        }
         Err(p) => Outcome::Panic(p),
     };
 
